@@ -54,9 +54,9 @@ EvI(c, a) ==
                      [] f.op = "mulk"  -> Arith("mul", EvI(f.a, a), Num(f.b))
                      [] f.op = "kdiv"  -> Arith("div", Num(f.a), EvI(f.b, a))
   IN IF Variant = "fixed"
-     THEN (IF c \in DOMAIN a THEN Num(a[c]) ELSE orig)
+     THEN (IF c \in DOMAIN a THEN OvVal(a[c]) ELSE orig)
      ELSE (IF orig.k = "err" THEN Err                      \* eager default: the exception escapes
-           ELSE IF c \in DOMAIN a THEN Num(a[c]) ELSE orig)
+           ELSE IF c \in DOMAIN a THEN OvVal(a[c]) ELSE orig)
 
 Query(kind, arg) ==
   \E ch \in (IF dirty THEN Choices ELSE {EmptyOv}) :
